@@ -414,6 +414,16 @@ PROPS["C13"] = {
     "explanation": "",
     "design_ref": "DESIGN.md §11b",
 }
+A_BTREE_ORDER = "A-std (map order): iterating `&BTreeMap` yields every entry once in an order that is a function of the map's contents (btree_order, uninterpreted; ascending keys in reality) - so Digest::serialize and Digest::serialized_len walk the same sequence; `n as u16` and `buf.extend(x.to_le_bytes())` go through adapters whose body is the idiom"
+A_DELTA_BYTES = "A-zstd (delta bytes): the bytes Delta::serialize appends are uninterpreted and their number is the delta's stored serialized_len - enforced at run time by the assert_eq!(payload.len(), self.serialized_len) in its body (the assert's own reachability is the compressibility question of C07, bounded drivers c08_messages / c07_reply_size)"
+PROPS["C08"]["verus"].append({"unit": U2, "fns": ["Digest::serialize", "Digest::serialized_len", "lemma_enc_entries_step", "lemma_enc_entries_mono"]})
+PROPS["C08"]["verus"].append({"unit": U5, "fns": ["ChitchatMessage::serialize", "ChitchatMessage::serialized_len", "ProtocolVersion::to_code", "MessageType::to_code", "Delta::serialized_len", "lemma_msg_len"]})
+PROPS["C08"]["assumptions"] += [A_BTREE_ORDER, A_DELTA_BYTES]
+PROPS["C08"]["level_text"] += " The composites are under the same kind of contract: Digest (count as u16, then per member in map order id, heartbeat, GC watermark, max version - two loops over the map proved to walk the same sequence) and ChitchatMessage (magic 45139 LE, version 0, type byte 0/1/2/3, then digest + str(cluster id) | digest + delta | delta | nothing) append exactly their documented layout and announce exactly its length; the fixed part of every message is 4 bytes (lemma_msg_len)."
+PROPS["C07"]["verus"].append({"unit": U2, "fns": ["Digest::serialize", "Digest::serialized_len"]})
+PROPS["C07"]["verus"].append({"unit": U5, "fns": ["ChitchatMessage::serialize", "ChitchatMessage::serialized_len", "lemma_msg_len"]})
+PROPS["C07"]["assumptions"] += [A_BTREE_ORDER, A_DELTA_BYTES]
+PROPS["C07"]["level_text"] += " The digest length the budget subtracts is now the proved length of what Digest::serialize writes (no longer an uninterpreted number), and a reply is exactly 4 + digest + delta.serialized_len bytes long (ChitchatMessage::serialize / serialized_len against the documented layout), so the constant MESSAGE_HEADER_LEN is tied to the real header."
 U2_CODEC = ["ChitchatId::serialize", "ChitchatId::serialized_len", "Heartbeat::serialize", "Heartbeat::serialized_len", "NodeDigest::serialize",
             "NodeDigest::serialized_len", "alloc::string::String::serialize", "alloc::string::String::serialized_len",
             "DeletionStatusMutation::serialize", "DeletionStatusMutation::serialized_len", "KeyValueMutationRef::serialize",
